@@ -290,14 +290,14 @@ Section DenDec.
     end.
 
   (* Box::new / Arc::new are the identity on values; Message::decode of a newtype is the newtype's own read *)
+  Fixpoint unbox (e : rop) : rop := match e with RBox e' | RArc e' => unbox e' | _ => e end.
   Fixpoint rres (fuel : nat) (e : rop) : rop :=
     match fuel with
-    | O => e
+    | O => unbox e
     | Datatypes.S f =>
-        match e with
-        | RBox e' | RArc e' => rres f e'
-        | RPath n => match row tbl n with ENewtype _ _ _ d => rres f d | _ => e end
-        | _ => e
+        match unbox e with
+        | RPath n => match row tbl n with ENewtype _ _ _ d => rres f d | _ => RPath n end
+        | e' => e'
         end
     end.
 
